@@ -27,6 +27,10 @@
 //!   f.rt F                          to_string() then parse: -> `<text s:bytes> <result of the parse>`
 //!   f.with_base d:newbase F         with_base::<NewB>() -> result + Exact | Inexact:<adj>   (+ to_decimal / to_binary forms)
 //!   f.with_base_prec d:newbase d:p F   with_base_and_precision::<NewB>(p)
+//!   f.with_base_chk d:newbase P F   P = auto | d:p.  The large-exponent branch of convert_base goes through ln/exp and is not
+//!        mirrored by the model; the harness judges the result with exact rational arithmetic (dashu-ratio) and prints
+//!        `d:<precision> digits=<b> ulp=<b> side=<b> flag=<b> exactrep=<b>`:  significand fits the precision; |r - x| < 1 ulp of
+//!        the target format at x; r on the side the mode requires; Exact flag iff r = x; r = x whenever x is representable
 //!   f.from_f32 <bits hex> M / f.from_f64 <bits hex> M   TryFrom<f32/f64> for FBig<M,2> and Repr<2> -> result | inf | -inf | err
 use dashu_base::ParseError;
 use dashu_int::{IBig, UBig};
@@ -702,6 +706,130 @@ fn with_base(a: &FArg, nb: u64, p: Option<usize>) -> Res {
     }
 }
 
+/// exact judgement of a base conversion result (see the module doc)
+fn judge(a: &FArg, nb: u64, mode: char, res: (IBig, isize, usize, bool)) -> String {
+    use dashu_base::{Abs, Gcd, UnsignedAbs};
+    use dashu_ratio::RBig;
+    let (s, e, p, flag_exact) = res;
+    let pow = |b: u64, k: isize| -> RBig {
+        let v = UBig::from(b).pow(k.unsigned_abs());
+        if k >= 0 {
+            RBig::from(v)
+        } else {
+            RBig::from_parts(IBig::ONE, v)
+        }
+    };
+    let x = RBig::from(a.signif.clone()) * pow(a.base, a.exp);
+    let r = RBig::from(s.clone()) * pow(nb, e);
+    // digits of the result significand in the new base
+    let mut digits = 0usize;
+    let mut t = s.clone().unsigned_abs();
+    while t > UBig::ZERO {
+        t /= UBig::from(nb);
+        digits += 1;
+    }
+    let digits_ok = p == 0 || digits <= p;
+    let diff = (r.clone() - x.clone()).abs();
+    // t with nb^t <= |x| < nb^(t+1)
+    let ax = x.clone().abs();
+    let within = if ax == RBig::ZERO {
+        r == RBig::ZERO
+    } else {
+        let mut t = e + digits as isize - 1;
+        while pow(nb, t) > ax {
+            t -= 1;
+        }
+        while pow(nb, t + 1) <= ax {
+            t += 1;
+        }
+        diff < pow(nb, t - p as isize + 1)
+    };
+    let side = match mode {
+        'Z' => r.clone().abs() <= ax,
+        'A' => r.clone().abs() >= ax,
+        'U' => r >= x,
+        'D' => r <= x,
+        _ => true,
+    };
+    let flag = flag_exact == (r == x);
+    // is x representable with at most p digits in base nb?
+    let representable = {
+        let (num, den) = x.clone().into_parts();
+        let mut num = num.unsigned_abs();
+        let mut den = den;
+        let nbig = UBig::from(nb);
+        let mut ok = true;
+        while den > UBig::ONE {
+            let g = (&den).gcd(&nbig);
+            if g == UBig::ONE {
+                ok = false;
+                break;
+            }
+            num *= &nbig / &g;
+            den /= &g;
+        }
+        if ok {
+            while num > UBig::ZERO && (&num % &nbig) == UBig::ZERO {
+                num /= &nbig;
+            }
+            let mut d = 0usize;
+            while num > UBig::ZERO {
+                num /= &nbig;
+                d += 1;
+            }
+            p == 0 || d <= p
+        } else {
+            false
+        }
+    };
+    let exactrep = !representable || r == x;
+    format!("d:{} digits={} ulp={} side={} flag={} exactrep={}", p, digits_ok, within, side, flag, exactrep)
+}
+
+fn wb_chk<R: Round, const B: Word, const NB: Word>(a: &FArg, p: Option<usize>) -> Res {
+    let x = build::<R, B>(a);
+    let out = run1t(|| {
+        let r = match p {
+            None => x.clone().with_base::<NB>(),
+            Some(p) => x.clone().with_base_and_precision::<NB>(p),
+        };
+        let exact = matches!(r, Approximation::Exact(_));
+        let v = r.value();
+        judge(a, NB as u64, a.mode, (v.repr().significand().clone(), v.repr().exponent(), v.precision(), exact))
+    });
+    merge(&["with_base"], vec![out])
+}
+
+macro_rules! wbc_mode {
+    ($b:literal, $nb:literal, $a:expr, $p:expr) => {
+        match $a.mode {
+            'Z' => wb_chk::<mode::Zero, $b, $nb>($a, $p),
+            'A' => wb_chk::<mode::Away, $b, $nb>($a, $p),
+            'U' => wb_chk::<mode::Up, $b, $nb>($a, $p),
+            'D' => wb_chk::<mode::Down, $b, $nb>($a, $p),
+            'E' => wb_chk::<mode::HalfEven, $b, $nb>($a, $p),
+            'H' => wb_chk::<mode::HalfAway, $b, $nb>($a, $p),
+            m => Err(format!("bad-arg mode {}", m)),
+        }
+    };
+}
+
+fn with_base_chk(a: &FArg, nb: u64, p: Option<usize>) -> Res {
+    match (a.base, nb) {
+        (2, 10) => wbc_mode!(2, 10, a, p),
+        (10, 2) => wbc_mode!(10, 2, a, p),
+        (10, 16) => wbc_mode!(10, 16, a, p),
+        (16, 10) => wbc_mode!(16, 10, a, p),
+        (3, 10) => wbc_mode!(3, 10, a, p),
+        (10, 3) => wbc_mode!(10, 3, a, p),
+        (2, 3) => wbc_mode!(2, 3, a, p),
+        (3, 2) => wbc_mode!(3, 2, a, p),
+        (36, 10) => wbc_mode!(36, 10, a, p),
+        (10, 36) => wbc_mode!(10, 36, a, p),
+        _ => Err(format!("bad-arg base-pair {} {}", a.base, nb)),
+    }
+}
+
 fn from_float<R: Round>(bits: u64, is64: bool) -> Res {
     let rs = if is64 {
         let f = f64::from_bits(bits);
@@ -780,6 +908,15 @@ pub fn dispatch_float(op: &str, args: &[&str]) -> Option<Res> {
                 let p = p_usize(arg(args, 1)?)?;
                 let a = p_farg(arg(args, 2)?)?;
                 with_base(&a, nb, Some(p))
+            }
+            "f.with_base_chk" => {
+                let nb = p_usize(arg(args, 0)?)? as u64;
+                let p = match arg(args, 1)? {
+                    "auto" => None,
+                    s => Some(p_usize(s)?),
+                };
+                let a = p_farg(arg(args, 2)?)?;
+                with_base_chk(&a, nb, p)
             }
             "f.from_f32" | "f.from_f64" => {
                 let bits = u64::from_str_radix(arg(args, 0)?, 16).map_err(|_| "bad-arg bits".to_string())?;
